@@ -73,6 +73,10 @@ pub fn main(args: &[String]) -> i32 {
             "obj": {"k": "obj", "o": {"k": {"k": "int", "n": 9}}}}})
         .to_string()
     }))
+    // a partial stored under both spellings: a failure inside it is final, there is no second try under the other name
+    .chain(["{% render 'x' %}|{% render 'x' for (1..2) as i %}|{% include 'x' %}"].iter().map(|s| {
+        json!({"src": s, "data": {}, "parts": {"x": {"ok": true, "src": "ab{{ 'c' }}d"}, "x.liquid": {"ok": true, "src": "XYZ"}}}).to_string()
+    }))
     .collect();
     let n_corpus = lines.len();
     lines.extend(extra.iter().map(|s| s.as_str()));
